@@ -26,25 +26,26 @@ type FileSpec struct {
 }
 
 type Spec struct {
-	Mode     string              `json:"mode"` // sim | staged
-	Args     []string            `json:"args"`
-	Env      map[string]string   `json:"env"`
-	Dir      string              `json:"dir"`
-	Files    map[string]FileSpec `json:"files"`
-	Links    map[string]string   `json:"links"`
-	Stdin    *StdinSpec          `json:"stdin"`
-	Sched    rt.Config           `json:"sched"`
-	Chunk    Chunk               `json:"chunk"`
-	Faults   []*Fault            `json:"faults"`
-	CrashOp  *int                `json:"crash_op"`
-	Snapshot bool                `json:"snapshot"`
-	LogOps   bool                `json:"log_ops"`
-	Tail     bool                `json:"tail"`
-	FdLimit  int                 `json:"fd_limit"`
-	RFdLimit int                 `json:"rfd_limit"`
-	KeepDir  bool                `json:"keep_dir"`
-	MaxOut   int                 `json:"max_out"`
-	StagedCap int                `json:"staged_cap"`
+	Mode       string              `json:"mode"` // sim | staged
+	Args       []string            `json:"args"`
+	Env        map[string]string   `json:"env"`
+	Dir        string              `json:"dir"`
+	Files      map[string]FileSpec `json:"files"`
+	Links      map[string]string   `json:"links"`
+	Stdin      *StdinSpec          `json:"stdin"`
+	Sched      rt.Config           `json:"sched"`
+	Chunk      Chunk               `json:"chunk"`
+	Faults     []*Fault            `json:"faults"`
+	CrashOp    *int                `json:"crash_op"`
+	Snapshot   bool                `json:"snapshot"`
+	SnapAtExit bool                `json:"snap_at_exit"`
+	LogOps     bool                `json:"log_ops"`
+	Tail       bool                `json:"tail"`
+	FdLimit    int                 `json:"fd_limit"`
+	RFdLimit   int                 `json:"rfd_limit"`
+	KeepDir    bool                `json:"keep_dir"`
+	MaxOut     int                 `json:"max_out"`
+	StagedCap  int                 `json:"staged_cap"`
 }
 
 type FileOut struct {
@@ -234,6 +235,11 @@ func finalize(spec *Spec, s *seamState, res *Result, realStdout, realStderr, out
 	}
 	finalizeOnce = true
 	uninstall()
+	if spec.Snapshot && spec.SnapAtExit {
+		// what the directory looks like at the instant the simulated process exits: children it started and did not
+		// wait for may not have finished (their output files are then incomplete)
+		takeSnapshot(spec, res)
+	}
 	if s.children && (res.Outcome.Status == "returned" || res.Outcome.Status == "exit") {
 		// let real children finish (as a shell would wait for the pipeline)
 		for f := range s.wrOpen {
@@ -270,37 +276,7 @@ func finalize(spec *Spec, s *seamState, res *Result, realStdout, realStderr, out
 	res.ChildPolls = s.childPolls
 	res.StdinRead = s.spos
 	if spec.Snapshot {
-		res.Files = map[string]FileOut{}
-		var names []string
-		filepath.Walk(spec.Dir, func(p string, info os.FileInfo, err error) error {
-			if err != nil {
-				return nil
-			}
-			if info.Mode()&os.ModeSymlink != 0 {
-				return nil
-			}
-			if info.IsDir() {
-				return nil
-			}
-			names = append(names, p)
-			return nil
-		})
-		sort.Strings(names)
-		total := 0
-		for _, p := range names {
-			rel, _ := filepath.Rel(spec.Dir, p)
-			fi, err := os.Lstat(p)
-			if err != nil || !fi.Mode().IsRegular() {
-				continue
-			}
-			b, _ := os.ReadFile(p)
-			total += len(b)
-			fo := FileOut{Mode: uint32(fi.Mode().Perm()), Size: int64(len(b))}
-			if total <= spec.MaxOut {
-				fo.B64 = base64.StdEncoding.EncodeToString(b)
-			}
-			res.Files[rel] = fo
-		}
+		takeSnapshot(spec, res)
 	}
 	if !spec.KeepDir {
 		os.Chdir("/")
@@ -316,6 +292,44 @@ func finalize(spec *Spec, s *seamState, res *Result, realStdout, realStderr, out
 	}
 	// leave without running deferred test machinery: parked goroutines may remain
 	syscall.Exit(0)
+}
+
+// takeSnapshot records the regular files under the run's directory.
+func takeSnapshot(spec *Spec, res *Result) {
+	if res.Files != nil {
+		return
+	}
+	res.Files = map[string]FileOut{}
+	var names []string
+	filepath.Walk(spec.Dir, func(p string, info os.FileInfo, err error) error {
+		if err != nil {
+			return nil
+		}
+		if info.Mode()&os.ModeSymlink != 0 {
+			return nil
+		}
+		if info.IsDir() {
+			return nil
+		}
+		names = append(names, p)
+		return nil
+	})
+	sort.Strings(names)
+	total := 0
+	for _, p := range names {
+		rel, _ := filepath.Rel(spec.Dir, p)
+		fi, err := os.Lstat(p)
+		if err != nil || !fi.Mode().IsRegular() {
+			continue
+		}
+		b, _ := os.ReadFile(p)
+		total += len(b)
+		fo := FileOut{Mode: uint32(fi.Mode().Perm()), Size: int64(len(b))}
+		if total <= spec.MaxOut {
+			fo.B64 = base64.StdEncoding.EncodeToString(b)
+		}
+		res.Files[rel] = fo
+	}
 }
 
 func ParkHere() { select {} }
